@@ -23,7 +23,7 @@ PROPERTY = {
               'DocTest.run: a part is skipped -- nothing compiled, executed or checked, its index appended to _skipped_parts, unmatched '
               'output untouched, no stdout logged -- iff after update(part.directives) SKIP is on or a REQUIRES condition is pending '
               '(or it has no code); otherwise it is compiled and executed once'],
-        'B': ['Directive.extract on statement texts whose directives are known by construction (4 comment prefixes x 9 option texts x 7 code fragments incl. directive syntax inside string literals and multi-line statements, with / without the comment): name, sign, arguments and inline flag (bounded/c04_extract.py)',
+        'B': ['Directive.extract on statement texts whose directives are known by construction (4 comment prefixes x 9 option texts x 13 code fragments incl. directive syntax inside string literals, multi-line statements and statements made of string literals only (a trailing directive on them is INLINE), with / without the comment): name, sign, arguments and inline flag (bounded/c04_extract.py)',
               'the real parser and DocTest.run on every sequence of 1..2 (thorough 3) statement templates plus random longer ones, each run twice, against an oracle written from the property statements: executed statements and their order, verdict, recorded exception and failing part, logged output, renderable report, stdout restored, second run identical, module global untouched (bounded/run_corpus.py)',
                    'the real _locate_ps1_linenos / _package_chunk on every sequence of up to 3 (thorough: 4) statement shapes: an inline directive\'s statement is alone in its part, a block directive line starts a part, no directive is lost (bounded/c01_chunks.py Q4)', 'the real RuntimeState on a few default dicts x directive sequences: no aliasing of the module-level defaults or of the dict handed in, no write to either (guards the proof against rewrites of __init__ the engine cannot follow)'],
         'T': ['_is_requires_satisfied (environment oracle)', 'set_report_style only touches REPORT_* entries (outside the quantifier)',
